@@ -783,6 +783,7 @@ impl Parser {
         let mut function_expr = Expr::function(function);
 
         let mut curly_mode = false;
+        let mut opened = false;
         if let Some(lexem) = self.next_lexem() {
             if lexem != Lexem::Open && lexem != Lexem::CurlyOpen {
                 if is_boolean_function {
@@ -792,15 +793,28 @@ impl Parser {
                 return Err("Error in function expression".to_string());
             }
 
+            opened = true;
             if lexem == Lexem::CurlyOpen {
                 curly_mode = true;
             }
         }
 
-        if let Ok(Some(function_arg)) = self.parse_expr() {
-            function_expr.left = Some(Box::from(function_arg));
-        } else {
-            return Ok(function_expr);
+        if opened {
+            // an empty argument list: the bracket must be closed by its own kind
+            match self.next_lexem() {
+                Some(Lexem::Close) if !curly_mode => return Ok(function_expr),
+                Some(Lexem::CurlyClose) if curly_mode => return Ok(function_expr),
+                Some(_) => self.drop_lexem(),
+                None => return Err("Error in function expression".to_string()),
+            }
+        }
+
+        match self.parse_expr() {
+            Ok(Some(function_arg)) => {
+                function_expr.left = Some(Box::from(function_arg));
+            }
+            _ if opened => return Err("Error in function expression".to_string()),
+            _ => return Ok(function_expr),
         }
 
         let mut args = vec![];
